@@ -49,7 +49,8 @@ pub(crate) fn parse_directive(jsx_attr: &JSXAttr, is_component: bool) -> Directi
                 .split('_');
             (
                 splitted.next().unwrap_or(&*ident.sym).to_ascii_lowercase(),
-                splitted.next(),
+                // `_` suffixes are modifiers; an argument can only be given as `v-name:arg`
+                None,
                 splitted,
             )
         }
